@@ -101,7 +101,31 @@ var byzActions = []string{
 func (c *Cluster) byzBatch(a *Actor) *clientpb.Batch {
 	a.Byz.seq++
 	client := uint32(100 + a.ID)
-	return &clientpb.Batch{Commands: []*clientpb.Command{{ClientID: client, SequenceNumber: a.Byz.seq, Data: CmdData(client, a.Byz.seq)}}}
+	fresh := &clientpb.Command{ClientID: client, SequenceNumber: a.Byz.seq, Data: CmdData(client, a.Byz.seq)}
+	b := &clientpb.Batch{Commands: []*clientpb.Command{fresh}}
+	// hostile batches: the same command twice, commands out of sequence order, commands that were proposed
+	// (and possibly committed) before - a leader is free to put anything into a block
+	switch c.Rng.Intn(8) {
+	case 0:
+		b.Commands = append(b.Commands, fresh)
+	case 1:
+		a.Byz.seq++
+		next := &clientpb.Command{ClientID: client, SequenceNumber: a.Byz.seq, Data: CmdData(client, a.Byz.seq)}
+		b.Commands = []*clientpb.Command{next, fresh} // higher sequence number first
+	case 2, 3:
+		if n := len(a.Byz.blocks); n > 0 {
+			old := a.Byz.blocks[c.Rng.Intn(n)].Commands().GetCommands()
+			if len(old) > 0 {
+				re := old[c.Rng.Intn(len(old))]
+				if c.Rng.Bool() {
+					b.Commands = append(b.Commands, re, re)
+				} else {
+					b.Commands = append([]*clientpb.Command{re}, b.Commands...)
+				}
+			}
+		}
+	}
+	return b
 }
 
 func (c *Cluster) others(a *Actor) []*Actor {
